@@ -171,6 +171,29 @@ def _job(args):
                 metas.append((mp, mods, edges, case))
                 if len(mods) > 3:
                     out["nontrivial"] += 1
+            # an inner directory scanned as a project of its own (root_path = module_path = that directory), in the same process and
+            # after the scans from the outer root - preferably a directory that bears the outer root's name (proj/src/proj)
+            inner = [d for d in dirs if len(d) > 1 and not getattr(dirs, "links", None) and not any(v.get("link_to") for v in files.values())]
+            inner = [d for d in inner if d[-1] == root] or (inner if rng.random() < 0.3 else [])
+            if inner and not xk:
+                d0 = rng.choice(inner)
+                cut = len(d0) - 1
+                dirs2 = [x[cut:] for x in dirs if x[:len(d0)] == d0]
+                files2 = {f[cut:]: v for f, v in files.items() if f[:len(d0)] == d0}
+                if all(scan.max_relative_level(v["body"]) <= len(f) - 1 for f, v in files2.items() if v["py"]):
+                    r2 = scan.real_scan(os.path.join(base, *d0[:-1]), d0[-1], (d0[-1],))
+                    out["n"] += 1
+                    out["stats"]["inner_directory_scanned_as_its_own_root"] = out["stats"].get("inner_directory_scanned_as_its_own_root", 0) + 1
+                    case2 = dict(dirs=[list(x) for x in dirs2], files={scan.dotted(f): (scan.render_v(v) if v["py"] else None) for f, v in files2.items()}, module_path=[d0[-1]],
+                                 scanned_before_from_outer_root=scan.dotted(d0))
+                    exp2 = expected_modules(dirs2, files2, (d0[-1],))
+                    if r2[0] != "OK":
+                        out["violations"].append((dict(case2, error=r2[1]), f"scan of the inner directory {scan.dotted(d0)} as its own root failed: {r2[1]}", {"kind": "scan_error"}))
+                    elif r2[1] != exp2:
+                        out["violations"].append((dict(case2, modules=r2[1], documented=exp2), f"the inner directory {scan.dotted(d0)} scanned as its own root (after scans from the outer root): modules differ from the directory tree", {"kind": "modules"}))
+                    else:
+                        cases.append(scan.model_scan_case(enc, d0[-1], dirs2, files2, (d0[-1],)))
+                        metas.append(((d0[-1],), r2[1], r2[2], case2))
             res = common.model_run(cases)
             for (mp, mods, edges, case), w, m in zip(metas, cases, res):
                 d = scan.dec_scan(enc, m)
@@ -182,7 +205,7 @@ def _job(args):
                 out["samples"].append(dict(dirs=[scan.dotted(d) for d in dirs], files=[scan.dotted(f) for f in files], module_paths=len(dirs)))
         finally:
             scan.cleanup(base)
-    return out
+    return common.tag_job(out, __name__, "_job", list(args))
 
 
 def module_object_entry_point(ctx, n):
